@@ -788,13 +788,13 @@ def _r5(model, rep):
 
 def _lossy_stores(model, rep):
     """(c) A buffer that is a copy of one operand takes that operand's
-    dtype; numpy casts whatever is stored into it *silently* (float -> int
-    truncates, complex -> float drops the imaginary part with a warning at
-    most).  Every item store (buf[ix] = v, np.add.at(buf, ix, v)) of an
-    array value that does not come from the same operand - the solver's
-    result, the prescribed values x - needs the buffer allocated in a common
-    type (np.result_type / np.promote_types in its definition).  Scalars
-    (constants, parameters annotated float) are exempt."""
+    dtype; numpy casts whatever is stored into it *silently*.  Every item
+    store of an array value that does not come from the same operand - the
+    solver's result, the prescribed values x - needs the buffer allocated in
+    a common type (np.result_type / np.promote_types in its definition).
+    Scalars (constants, parameters annotated float) are exempt.  Engine:
+    skv/dtypeflow.py."""
+    from ..dtypeflow import lossy_store_sites
     R5 = "C05-R5"
     nstores = 0
     for name in dict.fromkeys(BC_FUNCS):
@@ -802,94 +802,15 @@ def _lossy_stores(model, rep):
             fn = model.func(U, name)
         except AnalysisError:
             continue
-        a = fn.node.args
-        scalars = {x.arg for x in a.posonlyargs + a.args + a.kwonlyargs
-                   if x.annotation is not None and src(x.annotation) in (
-                       "float", "int", "bool", "Optional[float]", "str")}
-        params = set(fn.params())
-        defs: Dict[str, List[ast.Assign]] = {}
-        for n in walk_no_nested(fn.node):
-            if isinstance(n, ast.Assign):
-                for t in n.targets:
-                    for x in (t.elts if isinstance(t, ast.Tuple) else [t]):
-                        if isinstance(x, ast.Name):
-                            defs.setdefault(x.id, []).append(n)
-
-        def origin(e):
-            """operand the expression is a copy of, or None"""
-            if isinstance(e, ast.IfExp):
-                o1, o2 = origin(e.body), origin(e.orelse)
-                return o1 if o1 == o2 else None
-            if isinstance(e, ast.Name) and e.id in params:
-                return e.id
-            if isinstance(e, ast.Subscript):
-                return origin(e.value)
-            if isinstance(e, ast.Call):
-                f = e.func
-                if isinstance(f, ast.Attribute) and f.attr in (
-                        "copy", "astype", "diagonal", "toarray"):
-                    return origin(f.value)
-                if src(f) in ("np.tile", "np.array", "np.copy",
-                              "np.asarray") and e.args:
-                    return origin(e.args[0])
-            return None
-
-        def widened(e):
-            return any(isinstance(c, ast.Call) and src(c.func).split(".")[-1]
-                       in ("result_type", "promote_types", "common_type",
-                           "find_common_type") for c in ast.walk(e))
-
-        def foreign(v, own):
-            """does the stored value carry array data not from `own`?"""
-            for x in ast.walk(v):
-                if isinstance(x, ast.Name) and isinstance(x.ctx, ast.Load):
-                    if x.id in scalars or x.id == own or \
-                            x.id in ("np", "numpy"):
-                        continue
-                    if x.id in params:
-                        return x.id
-                    if x.id in defs:
-                        for d in defs[x.id]:
-                            if isinstance(d.value, ast.Call) and \
-                                    origin(d.value) != own:
-                                return f"{x.id} = {src(d.value)[:30]}"
-                            f_ = foreign(d.value, own) if not isinstance(
-                                d.value, ast.Call) else None
-                            if f_:
-                                return f_
-                if isinstance(x, ast.Call) and isinstance(x.func, ast.Name) \
-                        and x.func.id in params:
-                    return f"{x.func.id}(...)"
-            return None
-        stores = []
-        for n in walk_no_nested(fn.node):
-            if isinstance(n, ast.Assign) and len(n.targets) == 1 and \
-                    isinstance(n.targets[0], ast.Subscript) and \
-                    isinstance(n.targets[0].value, ast.Name):
-                stores.append((n.targets[0].value.id, n.value, n))
-            elif isinstance(n, ast.Call) and src(n.func) in (
-                    "np.add.at", "numpy.add.at") and len(n.args) == 3 and \
-                    isinstance(n.args[0], ast.Name):
-                stores.append((n.args[0].id, n.args[2], n))
         seen = set()
-        for buf, val, node in stores:
-            dl = sorted((d for d in defs.get(buf, [])
-                         if d.lineno < node.lineno), key=lambda d: d.lineno)
-            if not dl:
-                continue
-            d = dl[-1]
-            own = origin(d.value)
-            if own is None:
-                continue
-            who = foreign(val, own)
-            if who is None:
-                continue
+        for buf, own, who, d, node, wide in lossy_store_sites(
+                fn.node, fn.params()):
             nstores += 1
             cons = f"{name}:{buf}:holds-stored-values"
             if cons in seen:
                 continue
             seen.add(cons)
-            if widened(d.value):
+            if wide:
                 rep.ok(R5, cons, f"'{buf}' is allocated in a common type of "
                                  f"'{own}' and what is stored into it")
             else:
